@@ -886,3 +886,80 @@ def r_idxtruth(ctx) -> RuleResult:
     res.inst("reader and parser closures", f"{len(fis)} functions, {n_idx} names holding zero-based indices, {n_uses} used as truth values", "ok" if not n_uses else "fail")
     res.counts = {"functions": len(fis), "index_names": n_idx, "truth_uses": n_uses, "fixture_detected": 1}
     return res
+
+
+# --------------------------------------------------------------------------- R-CANONPATH
+
+
+@rule("R-CANONPATH")
+def r_canonpath(ctx) -> RuleResult:
+    res = RuleResult("R-CANONPATH", "canonicalize_molecule hands back a graph only after the classes were computed from the invariant codes, bliss was consulted and the nodes were relabelled; the only short cut allowed is for the molecule without atoms")
+    from ..cfg import cfg_of
+    from .common import entry
+    can = entry(ctx, "canonicalize")
+    fn = can.node
+    cfg = cfg_of(fn)
+    part = ctx.repo.const("tucan.graph_attributes", "PARTITION")
+
+    def closure_has(f, pred) -> bool:
+        for q in [f.fq] + list(ctx.cg.closure([f.fq])):
+            g = ctx.cg.funcs[q]
+            if any(pred(g, x) for x in own_walk(g.node)):
+                return True
+        return False
+
+    def writes_partition(g, x):
+        if isinstance(x, ast.Call) and norm(x.func).endswith("set_node_attributes"):
+            nm = x.args[2] if len(x.args) >= 3 else next((k.value for k in x.keywords if k.arg == "name"), None)
+            return nm is not None and try_const(ctx, g, nm, default=None) == part
+        # G.nodes[a][PARTITION] = ..
+        if isinstance(x, ast.Subscript) and isinstance(x.ctx, ast.Store) and isinstance(x.value, ast.Subscript) and isinstance(x.value.value, ast.Attribute) \
+                and x.value.value.attr in ("nodes", "_node"):
+            return try_const(ctx, g, x.slice, default=None) == part
+        return False
+
+    def calls_bliss(g, x):
+        return isinstance(x, ast.Call) and isinstance(x.func, ast.Attribute) and x.func.attr == "canonical_permutation"
+    steps = {"classes computed (partition attribute written)": [], "bliss consulted": [], "nodes relabelled": []}
+    for st in own_walk(fn):
+        if not isinstance(st, ast.stmt) or st is fn or isinstance(st, (ast.If, ast.For, ast.While, ast.Try, ast.With)):
+            continue
+        for x in ast.walk(st):
+            if not isinstance(x, ast.Call):
+                continue
+            cs = ctx.cg.resolve_call(can, x, ctx.cg.local_types(can), set(params_of(fn)))
+            n = cfg.node_of(st) if cfg.node_of(st) is not None else cfg.stmt_node_containing(st)
+            if n is None:
+                continue
+            if cs.kind == "tucan":
+                if closure_has(cs.target, writes_partition):
+                    steps["classes computed (partition attribute written)"].append(n)
+                if closure_has(cs.target, calls_bliss):
+                    steps["bliss consulted"].append(n)
+                if closure_has(cs.target, lambda g, y: isinstance(y, ast.Call) and norm(y.func).endswith("relabel_nodes")):
+                    steps["nodes relabelled"].append(n)
+            elif cs.kind == "ext" and cs.target == "networkx.relabel_nodes":
+                steps["nodes relabelled"].append(n)
+            elif calls_bliss(can, x):
+                steps["bliss consulted"].append(n)
+    missing = [k for k, v in steps.items() if not v]
+    if missing:
+        raise AnalysisError(f"R-CANONPATH: canonicalize_molecule has no statement for: {missing} (anchor vanished)")
+    from .parserwiring import _guard_tests
+    gname = params_of(fn)[0]
+    empty_tests = {f"{gname}.number_of_nodes() == 0", f"len({gname}) == 0", f"not {gname}", f"not {gname}.nodes", f"len({gname}.nodes) == 0", f"{gname}.number_of_nodes() < 1",
+                   f"not {gname}.number_of_nodes()", f"{gname}.order() == 0"}
+    for r in [x for x in own_walk(fn) if isinstance(x, ast.Return) and x.value is not None]:
+        rn = cfg.node_of(r)
+        skipped = [k for k, nodes in steps.items() if not any(cfg.dominates(n, rn) for n in nodes)]
+        if not skipped:
+            res.inst(can.fq, f"`{short(r, 50)}` comes after classes, bliss and relabelling", "ok")
+            continue
+        tests = [t for t in _guard_tests(fn, r) if not isinstance(t, tuple)]
+        only_empty = bool(tests) and all(norm(t) in empty_tests for t in tests)
+        res.inst(can.fq, f"`{short(r, 50)}` skips {skipped}", "ok" if only_empty else "fail", detail="only for the molecule without atoms" if only_empty else "")
+        if not only_empty:
+            res.fail(Finding("R-CANONPATH", can.module.rel, can.qualname, norm(r),
+                             f"this return is reached without: {', '.join(skipped)}" + (f" (under `{short(tests[0], 50)}`)" if tests else "") +
+                             ": the graph handed back keeps the caller's labels and whatever partition numbers it came with, so classes and numbering are not those of the canonical form", line=r.lineno))
+    return res
